@@ -12,6 +12,7 @@ mod fatref;
 mod fsmon;
 mod fsx;
 mod mkfs;
+mod sdsim;
 mod selftest;
 mod vm;
 
@@ -99,6 +100,9 @@ fn main() {
         "C09" => fsmon::crash::run(&ctx, "C09"),
         "C10" => fsmon::crash::run(&ctx, "C10"),
         "C11" => fsmon::fault::run(&ctx),
+        "C12" => sdsim::checks::run_c12_c14(&ctx, "C12"),
+        "C13" => sdsim::checks::run_c13(&ctx),
+        "C14" => sdsim::checks::run_c12_c14(&ctx, "C14"),
         "C06" => checks::c06::run(&ctx),
         "C15" => checks::c15::run(&ctx),
         "C17" => codec::lfn::run(&ctx),
